@@ -289,7 +289,7 @@ func checkC09(c *Ctx, r *Report) {
 				continue
 			}
 			n++
-			if sets[cs.Instr.(ssa.Instruction)][lockKey{rootOf(fn.Params[0]), "mu"}] < 2 {
+			if sets[cs.Instr.(ssa.Instruction)][lk(fn.Params[0], "mu")] < 2 {
 				bad++
 			}
 		}
@@ -337,7 +337,7 @@ func checkC09(c *Ctx, r *Report) {
 				if !(precedes(creates[0].Instr, lk) && precedes(lk, copies[0])) {
 					return
 				}
-				if sets[lk][lockKey{rootOf(fd.Params[0]), "mu"}] < 2 {
+				if sets[lk][lkey(fd.Params[0], "mu")] < 2 {
 					return
 				}
 				// not-found branch: disk.Delete then return, never reaching the copy
@@ -384,10 +384,10 @@ func checkC09(c *Ctx, r *Report) {
 				return isB && bi.Name() == "len" && isPureLoadOf(cl.Call.Args[0], tBl+".dirtyMD")
 			}, true))
 			st := sets[in]
-			fHeld := st[lockKey{rootOf(fm.Params[0]), "mu"}] >= 2
+			fHeld := st[lk(fm.Params[0], "mu")] >= 2
 			bHeld := false
 			for k, m := range st {
-				if k.mutex == "mu" && m >= 2 && typeName(k.root.Type()) == tBl {
+				if k.mutex == "mu" && m >= 2 && k.rtype == tBl {
 					bHeld = true
 				}
 			}
